@@ -1251,6 +1251,27 @@ func servedIsStored(res *RunResult) []Violation {
 	if res.FinalSnap == nil || res.FinalSnap.Err != "" || res.FinalServed == nil {
 		return nil
 	}
+	// the log list names each log with a stored checkpoint exactly once, and nothing else
+	seen := map[string]int{}
+	for _, id := range res.FinalSnap.Logs {
+		seen[id]++
+	}
+	for id, n := range seen {
+		if n > 1 {
+			out = append(out, Violation{Class: "read_after_write_differs", Sig: "read_after_write_differs/at_rest/log_list_duplicate", OpIdx: -1,
+				Detail: fmt.Sprintf("after the run came to rest the log list names %s %d times: %v", id, n, res.FinalSnap.Logs)})
+		}
+		if _, ok := res.FinalSnap.CP[id]; !ok {
+			out = append(out, Violation{Class: "read_after_write_differs", Sig: "read_after_write_differs/at_rest/log_list_extra", OpIdx: -1,
+				Detail: fmt.Sprintf("after the run came to rest the log list names %s, for which nothing is stored", id)})
+		}
+	}
+	for id := range res.FinalSnap.CP {
+		if seen[id] == 0 {
+			out = append(out, Violation{Class: "read_after_write_differs", Sig: "read_after_write_differs/at_rest/log_list_missing", OpIdx: -1,
+				Detail: fmt.Sprintf("after the run came to rest a checkpoint is stored for %s, but the log list %v does not name it", id, res.FinalSnap.Logs)})
+		}
+	}
 	for _, l := range res.W.Logs {
 		stored := res.FinalSnap.CP[l.ID]
 		for _, via := range []string{"", "adapter/"} {
